@@ -162,15 +162,21 @@ impl<'c> Out<'c> {
     }
     fn numeric_ref(&mut self, c: char) {
         let v = c as u32;
-        let k = if self.opts.enumerating { self.ch.pick(2) } else { self.ch.pick(5) };
+        let k = if self.opts.enumerating { self.ch.pick(2) } else { self.ch.pick(7) };
         let t = match k {
             0 => format!("&#{};", v),
             1 => format!("&#x{:X};", v),
             2 => format!("&#x{:x};", v),
             3 => format!("&#x{:04X};", v),
-            _ => format!("&#{:05};", v),
+            4 => format!("&#{:05};", v),
+            // long zero padding: more digits than any code point needs
+            5 => format!("&#{:012};", v),
+            _ => format!("&#x{:020x};", v),
         };
-        self.feat(if k == 0 || k == 4 { "decimal-reference" } else { "hex-reference" });
+        if k >= 5 {
+            self.feat("reference-with-long-zero-padding");
+        }
+        self.feat(if k == 0 || k == 4 || k == 5 { "decimal-reference" } else { "hex-reference" });
         self.raw(&t);
     }
     fn named_or_numeric(&mut self, c: char, name: &str) {
@@ -470,7 +476,7 @@ pub fn render(doc: &ANode, ch: &mut dyn Choices, opts: &RenderOpts) -> Rendered 
                 3 => ("\n", "=", "\n"),
                 4 => (" ", " = ", "  "),
                 5 => ("\t", "\t=\n", "\r\n"),
-                _ => ("\r\n", "= ", " \t"),
+                _ => ("\r\n", "= ", "                                                                          \t"),
             };
             if s1 != " " {
                 out.feat("declaration-target-followed-by-tab-or-line-break");
